@@ -6,6 +6,6 @@ CONSTANTS
   HopSafe = TRUE
   CLNormalised = TRUE
   BigBodies = FALSE
-  Families = {"mini"}
+  Families = {"mini", "inj"}
 INVARIANTS SignedIsReceived
 CHECK_DEADLOCK FALSE
